@@ -221,7 +221,13 @@ def main():
         return 2
     except Exception:
         traceback.print_exc()
-        return 2
+        if not ctx.violations:
+            return 2
+        # violations were already established (with their replays) before
+        # the harness itself stumbled: they are reported, the stumble noted
+        ctx.extra["harness_exception_after_violation"] = \
+            traceback.format_exc()[-1500:]
+        discharged = locals().get("discharged", 0)
 
     names = theorems + obl.get("streams", [])
     n_obl = len(names)
